@@ -306,7 +306,8 @@ class Evaluator:
                 return ("module", what)
             if kind == "ext":
                 if what in ("struct.calcsize", "struct.pack",
-                            "struct.unpack", "struct.unpack_from"):
+                            "struct.unpack", "struct.unpack_from",
+                            "struct.pack_into", "struct.iter_unpack"):
                     return ("pyfunc", getattr(struct, what.split(".")[1]))
                 if what == "operator.index":
                     return ("pyfunc", operator.index)
@@ -341,6 +342,8 @@ class Evaluator:
             return ("isinstance",)
         if name in ("next", "iter"):
             return ("iterfn", name)
+        if name in ("map", "filter"):
+            return ("mapfn", name)
         if name in ("setattr", "getattr", "hasattr"):
             return ("attrfn", name)
         if name in ("True", "False", "None"):
@@ -472,6 +475,24 @@ class Evaluator:
             return ("pyfunc", v) if callable(v) else v
         if isinstance(base, tuple) and attr in getattr(base, "_fields", ()):
             return getattr(base, attr)      # a namedtuple's field
+        if isinstance(base, tuple) and hasattr(type(base), "_sa_ci"):
+            # a method or property the repository class adds to its
+            # namedtuple base
+            ci_ = type(base)._sa_ci
+            try:
+                v = self.class_attr(ci_, attr)
+            except Unknown:
+                v = None
+            if isinstance(v, tuple) and v and v[0] == "function":
+                decos = [unparse(d) for d in getattr(
+                    v[2], "decorator_list", [])]
+                if "property" in decos:
+                    return self.call_function(v[2], [base], cls=v[1])
+                if "staticmethod" in decos:
+                    return v
+                return ("method", base, v[2], v[1])
+            if v is not None:
+                return v
         # immutable builtins: every public method is pure
         if type(base) in (str, bytes, tuple, int, float, frozenset) and \
                 not attr.startswith("_") and hasattr(base, attr):
@@ -720,15 +741,15 @@ class Evaluator:
                 d[self.eval(k, env)] = self.eval(v, env)
         return d
 
+    def _e_Slice(self, node, env):
+        lo = self.eval(node.lower, env) if node.lower else None
+        hi = self.eval(node.upper, env) if node.upper else None
+        st = self.eval(node.step, env) if node.step else None
+        return slice(lo, hi, st)
+
     def _e_Subscript(self, node, env):
         base = self.eval(node.value, env)
-        if isinstance(node.slice, ast.Slice):
-            lo = self.eval(node.slice.lower, env) if node.slice.lower else None
-            hi = self.eval(node.slice.upper, env) if node.slice.upper else None
-            st = self.eval(node.slice.step, env) if node.slice.step else None
-            idx = slice(lo, hi, st)
-        else:
-            idx = self.eval(node.slice, env)
+        idx = self.eval(node.slice, env)
         if isinstance(base, Obj):
             m = self._dunder(base, "__getitem__")
             if m is None:
@@ -879,7 +900,42 @@ class Evaluator:
             kwargs[k.arg] = self.eval(k.value, env)
         return self.call(f, args, kwargs)
 
+    def _namedtuple_base(self, ci):
+        """the Python class for a repository class that derives from a
+        `namedtuple(...)` call (methods are looked up in the repository
+        class), or None"""
+        c = getattr(ci, "_sa_ntclass", False)
+        if c is not False:
+            return c
+        c = None
+        for b in getattr(ci.node, "bases", []):
+            if isinstance(b, ast.Call) and unparse(b.func).split(".")[-1] \
+                    == "namedtuple":
+                try:
+                    nt = Evaluator(self.repo, ci.module, None,
+                                   self.funcs).eval(b, {})
+                except (Unknown, Raised):
+                    break
+                if isinstance(nt, tuple) and len(nt) == 2 and nt[0] == \
+                        "pyfunc" and isinstance(nt[1], type):
+                    c = type(ci.name, (nt[1],), {"_sa_ci": ci,
+                                                 "__slots__": ()})
+                break
+        try:
+            ci._sa_ntclass = c
+        except AttributeError:
+            pass
+        return c
+
     def construct(self, ci, args, kwargs):
+        if self.repo.lookup(ci, "__init__")[1] is None and \
+                self.repo.lookup(ci, "__new__")[1] is None:
+            ntc = self._namedtuple_base(ci)
+            if ntc is not None:
+                try:
+                    return ntc(*args, **kwargs)
+                except TypeError as e:
+                    raise Raised(f"TypeError: {e}")
         obj = Obj(ci)
         owner, init = self.repo.lookup(ci, "__init__")
         if init is not None and isinstance(init, FUNC):
@@ -907,6 +963,14 @@ class Evaluator:
                 return self.ctor_hooks[f.ci.qualname](self, f.ci, args,
                                                       kwargs)
             return self.construct(f.ci, args, kwargs)
+        if isinstance(f, Obj):
+            # a callable object: a stand-in with a `__call__` hook, or an
+            # instance of a repository class that defines __call__
+            h = f.fields.get("__call__")
+            if h is None and f.ci is not None:
+                h = self._dunder(f, "__call__")
+            if h is not None:
+                return self.call(h, args, kwargs)
         if isinstance(f, tuple) and f:
             if f[0] == "hook":
                 # a rule's recording stub: receives abstract values as is
@@ -975,6 +1039,17 @@ class Evaluator:
                     raise Raised(f"{type(e).__name__}: {e}")
             if f[0] == "isinstance":
                 return self._isinstance(args[0], args[1])
+            if f[0] == "mapfn":
+                if len(args) < 2 or any(isinstance(a, (Obj, Opaque))
+                                        for a in args[1:]):
+                    raise Unknown(f"{f[1]}() over an abstract value")
+                fn = args[0]
+                if f[1] == "map":
+                    return _Gen(self.call(fn, list(xs))
+                                for xs in zip(*args[1:]))
+                return _Gen(x for x in args[1] if (
+                    self.truth(x) if fn is None
+                    else self.truth(self.call(fn, [x]))))
             if f[0] == "iterfn":
                 if not args or isinstance(args[0], (Obj, Opaque, ClassRef,
                                                     EnumVal)):
@@ -1391,7 +1466,10 @@ class Evaluator:
                                   "__setitem__")
                 self.call(m, [idx, v])
             elif isinstance(base, (list, dict, bytearray)):
-                base[idx] = v
+                try:
+                    base[idx] = v
+                except (KeyError, IndexError, TypeError, ValueError) as e:
+                    raise Raised(f"{type(e).__name__}: {e}")
             elif getattr(base, "_sa_recorder", False):
                 base[idx] = v       # a rule's recording stand-in
             else:
